@@ -64,6 +64,39 @@ func (c *Ctx) checkMappedCoordinatesUsed(rule string) {
 				return
 			}
 			n++
+			// the coordinates handed to the conversion are not, through the variables of the loop, the
+			// result of the same conversion for an earlier alignment (a window converted twice)
+			{
+				reapplied := ""
+				for _, rv := range raw {
+					seen := map[ssa.Value]bool{}
+					var back func(v ssa.Value, d int) bool
+					back = func(v ssa.Value, d int) bool {
+						if d > 8 || seen[v] {
+							return false
+						}
+						seen[v] = true
+						switch x := v.(type) {
+						case *ssa.Phi:
+							for _, e := range x.Edges {
+								if back(e, d+1) {
+									return true
+								}
+							}
+						case *ssa.Extract:
+							return x.Tuple == ssa.Value(in.(ssa.Value))
+						}
+						return false
+					}
+					if back(rv, 0) {
+						reapplied = rv.Name()
+					}
+				}
+				label := c.P.FuncName(fn)
+				L.Check(reapplied == "", rule, label, name+" applied to the given coordinates", c.P.Pos(in.Pos()),
+					"the converted values do not flow back into the conversion",
+					"the coordinates handed to the conversion are, on a path around the enclosing loop, the result of the same conversion for the previous alignment: from the second alignment of the input on the window is converted twice")
+			}
 			// region: what can execute after the call without starting another iteration of a loop that contains it
 			b0 := in.Block()
 			isBack := func(from, to *ssa.BasicBlock) bool {
